@@ -517,13 +517,45 @@ func (in *Interp) concretize(st *State, t *Term, lo, hi int64) int64 {
 		hi = t.Hi.Num().Int64()
 	}
 	if hi-lo > 2048 {
-		panic(unsupported(fmt.Sprintf("concretization range too large [%d,%d] for %s", lo, hi, t)))
+		// static range too wide: enumerate the feasible values with the solver (at most 64)
+		cands, ok := in.enumerateValues(st, t, 64)
+		if !ok {
+			panic(unsupported(fmt.Sprintf("concretization range too large [%d,%d] for %s", lo, hi, clip(t.String(), 200))))
+		}
+		panic(forkReq{term: t, cands: cands})
 	}
 	var cands []int64
 	for c := lo; c <= hi; c++ {
 		cands = append(cands, c)
 	}
 	panic(forkReq{term: t, cands: cands})
+}
+
+// enumerateValues lists all values t can take under the current path condition (up to max of them).
+func (in *Interp) enumerateValues(st *State, t *Term, max int) ([]int64, bool) {
+	probe := Var(SInt, "enum_probe", nil, nil)
+	in.Sol.Push()
+	defer in.Sol.Pop()
+	in.Sol.Assert(mk(SBool, "=", probe, t))
+	var vals []int64
+	for len(vals) <= max {
+		in.Res.BranchQ++
+		r, m := in.Sol.ModelWith([]*Term{probe})
+		if r == Unsat {
+			return vals, len(vals) > 0
+		}
+		if r != Sat || m == nil {
+			return nil, false
+		}
+		rv, ok := new(big.Rat).SetString(m["enum_probe"])
+		if !ok || !rv.IsInt() || !rv.Num().IsInt64() {
+			return nil, false
+		}
+		v := rv.Num().Int64()
+		vals = append(vals, v)
+		in.Sol.Assert(mk(SBool, "not", mk(SBool, "=", probe, IntC(v))))
+	}
+	return nil, false
 }
 
 // assume adds cond to the path condition (current solver level).
